@@ -16,11 +16,18 @@ package tests
 //   <wid> <mode> <log> <phase1> <phase2>
 //     mode   S            every single crash point k in 0..N1 of phase1
 //            D<stride>    every pair (k1,k2): k1 in 0..N1, k2 in 0..N2(k1), keeping pairs with (k1+k2)%stride==0
+//            T<m>:<r>     sampled single crash points: the point after the last operation, the first and last operation
+//                         index of every call (crash just before / just after a call returned) and every k with k%m==r
 //            s:<k>        one single crash point;  d:<k1>:<k2> one pair;  n  no crash (run, close, reopen)
-//     log    k:v,k:v,...  entry j (1-based) of the replicated log = Set(k, v)
+//     log    e,e,...      entry j (1-based) of the replicated log; e = k:v[~L][@I]: Set(k, value) handed to Update with
+//                         raft index I (default: index of the previous entry + 1; indexes strictly increasing, gaps
+//                         allowed).  v~L is the L-byte value "v~" + deterministic filler (vcExpand); looked-up values
+//                         longer than 40 bytes are printed in that form again (or as !x<hash>~<len> if they are not
+//                         of that form).
 //     phase  comma list of API calls executed on a fresh process:
 //            O open | U<n> update with the next n log entries (one batch) | Y sync |
-//            R<d> recover from a foreign snapshot taken at index lastApplied+d | C close
+//            R<d> recover from the snapshot of a foreign replica that applied d more log entries | C close
+//            (after Open returned index i the next entry is the first one with an index above i)
 //   phase2 is "-" for single crashes (the final probe is always: new process, Open, lookups, Close).
 // A crash at point k: from the k-th mutating FS operation on (0-based: operations 0..k-1 take
 // effect) syncs are ignored; the running API call is completed, the machine closed,
@@ -265,7 +272,103 @@ func (z *vcNorm) trace(raw []string) string {
 
 // ---------------------------------------------------------------- workload
 
-type vcLogEnt struct{ k, v string }
+type vcLogEnt struct {
+	k, v string
+	idx  uint64
+}
+
+// the value v~L: L bytes, "v~" followed by a filler that depends on v and on the position
+func vcExpand(tag string, n int) string {
+	if n <= len(tag)+1 {
+		return tag
+	}
+	b := make([]byte, n)
+	copy(b, tag)
+	b[len(tag)] = '~'
+	pat := []byte(tag + "#")
+	for i := len(tag) + 1; i < n; i++ {
+		b[i] = pat[(i+i/251)%len(pat)]
+	}
+	return string(b)
+}
+
+// printable form of a looked-up value
+func vcCanon(v []byte) string {
+	if len(v) <= 40 && !bytes.ContainsAny(v, "~, |\n") {
+		return string(v)
+	}
+	if i := bytes.IndexByte(v, '~'); i > 0 && i < 40 {
+		if vcExpand(string(v[:i]), len(v)) == string(v) {
+			return string(v[:i]) + "~" + strconv.Itoa(len(v))
+		}
+	}
+	h := uint64(14695981039346656037)
+	for _, c := range v {
+		h = (h ^ uint64(c)) * 1099511628211
+	}
+	return "!x" + strconv.FormatUint(h, 16) + "~" + strconv.Itoa(len(v))
+}
+
+func vcParseLog(s string) []vcLogEnt {
+	var log []vcLogEnt
+	prev := uint64(0)
+	for _, e := range strings.Split(s, ",") {
+		p := strings.SplitN(e, ":", 2)
+		if len(p) != 2 {
+			panic("bad log entry " + e)
+		}
+		v, idx := p[1], prev+1
+		if i := strings.LastIndex(v, "@"); i >= 0 {
+			x, err := strconv.ParseUint(v[i+1:], 10, 64)
+			if err != nil {
+				panic(err)
+			}
+			v, idx = v[:i], x
+		}
+		if i := strings.LastIndex(v, "~"); i >= 0 {
+			n, err := strconv.Atoi(v[i+1:])
+			if err != nil {
+				panic(err)
+			}
+			v = vcExpand(v[:i], n)
+		}
+		log = append(log, vcLogEnt{p[0], v, idx})
+		prev = idx
+	}
+	return log
+}
+
+// entry number j (1-based); beyond the end the log repeats its keys and values with consecutive indexes
+func vcEnt(log []vcLogEnt, j uint64) vcLogEnt {
+	n := uint64(len(log))
+	if j <= n {
+		return log[j-1]
+	}
+	e := log[(j-1)%n]
+	e.idx = log[n-1].idx + (j - n)
+	return e
+}
+
+// index of the last of the first pos entries (0: none)
+func vcIndexAt(log []vcLogEnt, pos uint64) uint64 {
+	if pos == 0 {
+		return 0
+	}
+	return vcEnt(log, pos).idx
+}
+
+// number of entries with an index <= idx
+func vcPosOf(log []vcLogEnt, idx uint64) uint64 {
+	n := uint64(len(log))
+	if n > 0 && idx > log[n-1].idx {
+		return n + (idx - log[n-1].idx)
+	}
+	pos := uint64(0)
+	for pos < n && log[pos].idx <= idx {
+		pos++
+	}
+	return pos
+}
 
 type vcCall struct {
 	kind       string
@@ -277,25 +380,30 @@ type vcCall struct {
 const vcCluster, vcNode = 1, 1
 const vcBig = 1 << 30
 
+// log entries number from+1 .. from+n
 func vcEntries(log []vcLogEnt, from uint64, n uint64) []sm.Entry {
 	ents := make([]sm.Entry, 0, n)
 	for j := from + 1; j <= from+n; j++ {
-		e := log[(j-1)%uint64(len(log))]
+		e := vcEnt(log, j)
 		rec := &kv.KV{Key: e.k, Val: e.v}
 		data, err := rec.MarshalBinary()
 		if err != nil {
 			panic(err)
 		}
-		ents = append(ents, sm.Entry{Index: j, Cmd: data})
+		ents = append(ents, sm.Entry{Index: e.idx, Cmd: data})
 	}
 	return ents
 }
 
 var vcSnapCache = map[string][]byte{}
+var vcSnapLog string
 
-// a snapshot image produced by a foreign replica that applied log entries 1..idx
+// a snapshot image produced by a foreign replica that applied log entries number 1..idx (one Update call each)
 func vcForeignSnapshot(log []vcLogEnt, logKey string, idx uint64) []byte {
-	key := logKey + "#" + strconv.FormatUint(idx, 10)
+	if logKey != vcSnapLog { // images are 6 MB each: keep those of the current log only
+		vcSnapCache, vcSnapLog = map[string][]byte{}, logKey
+	}
+	key := strconv.FormatUint(idx, 10)
 	if b, ok := vcSnapCache[key]; ok {
 		return b
 	}
@@ -327,7 +435,8 @@ type vcProc struct {
 	d    *DiskKVTest
 	used bool
 	open bool
-	last uint64
+	last uint64 // index acknowledged by the last call
+	pos  uint64 // number of log entries consumed
 }
 
 func vcCallOne(fs *vcFS, p *vcProc, c *vcCall, log []vcLogEnt, logKey string) {
@@ -351,15 +460,16 @@ func vcCallOne(fs *vcFS, p *vcProc, c *vcCall, log []vcLogEnt, logKey string) {
 			c.res = "err:" + vcClean(err.Error())
 			return
 		}
-		p.open, p.last = true, idx
+		p.open, p.last, p.pos = true, idx, vcPosOf(log, idx)
 		c.res = "ok:" + strconv.FormatUint(idx, 10)
 	case "U":
-		ents := vcEntries(log, p.last, c.arg)
+		ents := vcEntries(log, p.pos, c.arg)
 		if _, err := p.d.Update(ents); err != nil {
 			c.res = "err:" + vcClean(err.Error())
 			return
 		}
-		p.last += c.arg
+		p.pos += c.arg
+		p.last = vcIndexAt(log, p.pos)
 		c.res = "ok:" + strconv.FormatUint(p.last, 10)
 	case "Y":
 		if err := p.d.Sync(); err != nil {
@@ -368,12 +478,13 @@ func vcCallOne(fs *vcFS, p *vcProc, c *vcCall, log []vcLogEnt, logKey string) {
 		}
 		c.res = "ok:" + strconv.FormatUint(p.last, 10)
 	case "R":
-		img := vcForeignSnapshot(log, logKey, p.last+c.arg)
+		img := vcForeignSnapshot(log, logKey, p.pos+c.arg)
 		if err := p.d.RecoverFromSnapshot(bytes.NewReader(img), nil); err != nil {
 			c.res = "err:" + vcClean(err.Error())
 			return
 		}
-		p.last += c.arg
+		p.pos += c.arg
+		p.last = vcIndexAt(log, p.pos)
 		c.res = "ok:" + strconv.FormatUint(p.last, 10)
 	case "C":
 		p.open = false
@@ -530,7 +641,7 @@ func vcProbe(mem *vfs.MemFS, z *vcNorm, keys []string) string {
 					look = append(look, k+":!"+vcClean(err.Error()))
 					continue
 				}
-				look = append(look, k+":"+string(v.([]byte)))
+				look = append(look, k+":"+vcCanon(v.([]byte)))
 			}
 			// the stored applied index, read through the public interface
 			v, err := d.Lookup([]byte(appliedIndexKey))
@@ -588,6 +699,32 @@ func vcCase(w io.Writer, wid string, log []vcLogEnt, logKey string, ph1, ph2 []v
 	return n1, n2
 }
 
+// first and last operation index of every call of phase 1 (and the index after it), from an output line
+func vcCallBounds(line string) []int {
+	var out []int
+	i := strings.Index(line, "calls=")
+	if i < 0 {
+		return out
+	}
+	rest := line[i+6:]
+	if j := strings.Index(rest, " "); j >= 0 {
+		rest = rest[:j]
+	}
+	for _, c := range strings.Split(rest, ";") {
+		f := strings.Split(c, ":")
+		if len(f) < 4 {
+			continue
+		}
+		a, _ := strconv.Atoi(f[2])
+		b, _ := strconv.Atoi(f[3])
+		if a < 0 {
+			continue
+		}
+		out = append(out, a, a+1, b-1, b)
+	}
+	return out
+}
+
 func TestVerifCrash(t *testing.T) {
 	in, out := os.Getenv("VERIF_IN"), os.Getenv("VERIF_OUT")
 	if in == "" || out == "" {
@@ -616,11 +753,7 @@ func TestVerifCrash(t *testing.T) {
 			continue
 		}
 		wid, mode := f[0], f[1]
-		var log []vcLogEnt
-		for _, e := range strings.Split(f[2], ",") {
-			p := strings.SplitN(e, ":", 2)
-			log = append(log, vcLogEnt{p[0], p[1]})
-		}
+		log := vcParseLog(f[2])
 		ph1, ph2 := vcParsePhase(f[3]), vcParsePhase(f[4])
 		switch {
 		case mode == "n":
@@ -629,6 +762,35 @@ func TestVerifCrash(t *testing.T) {
 			n1, _ := vcCase(w, wid, log, f[2], ph1, ph2, vcBig, -1, false)
 			for k := 0; k < n1; k++ {
 				vcCase(w, wid, log, f[2], ph1, ph2, k, -1, false)
+			}
+		case strings.HasPrefix(mode, "T"):
+			p := strings.Split(mode[1:], ":")
+			m, _ := strconv.Atoi(p[0])
+			r := 0
+			if len(p) > 1 {
+				r, _ = strconv.Atoi(p[1])
+			}
+			if m < 1 {
+				m = 1
+			}
+			var full bytes.Buffer
+			n1, _ := vcCase(&full, wid, log, f[2], ph1, ph2, vcBig, -1, false)
+			w.Write(full.Bytes())
+			pick := map[int]bool{}
+			for k := 0; k < n1; k++ {
+				if k%m == r%m {
+					pick[k] = true
+				}
+			}
+			for _, b := range vcCallBounds(full.String()) {
+				if b >= 0 && b < n1 {
+					pick[b] = true
+				}
+			}
+			for k := 0; k < n1; k++ {
+				if pick[k] {
+					vcCase(w, wid, log, f[2], ph1, ph2, k, -1, false)
+				}
 			}
 		case strings.HasPrefix(mode, "D"):
 			stride, _ := strconv.Atoi(mode[1:])
